@@ -3,6 +3,7 @@
 package props
 
 import (
+	"sync"
 	"time"
 
 	"github.com/Trendyol/go-dcp/stream"
@@ -10,19 +11,39 @@ import (
 	"verif/harness/evlog"
 )
 
-// setHookDelays installs injected delays at the library's hook points (guarded by the verif build tag in
-// /repo: stream/verif_hook_on.go). A delay stands for a goroutine that is descheduled at that point.
+// Injected delays at the library's hook points (guarded by the verif build tag in /repo:
+// stream/verif_hook_on.go). A delay stands for a goroutine that is descheduled at that point.
+var hookMu sync.Mutex
+var hookArmed = map[string][2]int{} // point -> (remaining hits, ms): one-shot delays armed by a step
+
+// setHookDelays installs constant delays (point -> ms, every hit) and enables one-shot arming.
 func setHookDelays(l *evlog.Log, d map[string]int) {
-	if len(d) == 0 {
+	hookMu.Lock()
+	hookArmed = map[string][2]int{}
+	hookMu.Unlock()
+	if l == nil {
 		stream.VerifHook = nil
 		return
 	}
 	stream.VerifHook = func(point string) {
 		ms := d[point]
-		l.Add(evlog.Rec{K: "hook." + point, VB: -1, A: uint64(ms)})
+		hookMu.Lock()
+		if a, ok := hookArmed[point]; ok && a[0] > 0 {
+			ms = a[1]
+			hookArmed[point] = [2]int{a[0] - 1, a[1]}
+		}
+		hookMu.Unlock()
 		if ms > 0 {
+			l.Add(evlog.Rec{K: "hook." + point, VB: -1, A: uint64(ms)})
 			time.Sleep(time.Duration(ms) * time.Millisecond)
 			l.Add(evlog.Rec{K: "hook." + point + ".resume", VB: -1})
 		}
 	}
+}
+
+// armHook: the next n hits of point sleep ms.
+func armHook(point string, n, ms int) {
+	hookMu.Lock()
+	hookArmed[point] = [2]int{n, ms}
+	hookMu.Unlock()
 }
